@@ -16,11 +16,14 @@ pub struct WM {
     s: Option<WatermarkedStream>,
     n: u64,
     offered: usize,
+    unit: u64, // every time quantity of the spec (timestamp, delay, lateness) is multiplied by this many milliseconds
 }
 
+pub const INF_LATENESS: u64 = 1_000_000; // the spec's "never drop late data" threshold -> Duration::MAX
+
 impl WM {
-    pub fn new(_cfg: &Value) -> WM {
-        WM { s: None, n: 0, offered: 0 }
+    pub fn new(cfg: &Value) -> WM {
+        WM { s: None, n: 0, offered: 0, unit: cfg["unit"].as_u64().unwrap_or(1).max(1) }
     }
 }
 
@@ -32,7 +35,7 @@ impl Model for WM {
     fn apply(&mut self, l: &Value) -> Value {
         match l["op"].as_str().unwrap() {
             "config" => {
-                let d = l["delay"].as_u64().unwrap();
+                let d = l["delay"].as_u64().unwrap() * self.unit;
                 // delay 0 alternates between the two watermark strategies that mean "no out-of-orderness"
                 let ws = if d == 0 && l["lateness"].as_u64().unwrap() == 0 && l["strat"] == "drop" {
                     WatermarkStrategy::MonotonicAscending
@@ -41,17 +44,23 @@ impl Model for WM {
                 };
                 let ls = match l["strat"].as_str().unwrap() {
                     "drop" => LateDataStrategy::Drop,
-                    "allowed" => LateDataStrategy::AllowedLateness { max_lateness: Duration::from_millis(l["lateness"].as_u64().unwrap()) },
+                    "allowed" => {
+                        let lt = l["lateness"].as_u64().unwrap();
+                        // alternate between the two spellings of an unbounded grace period
+                        let dur = if lt >= INF_LATENESS { if d % 2 == 0 { Duration::MAX } else { Duration::from_millis(u64::MAX) } } else { Duration::from_millis(lt * self.unit) };
+                        LateDataStrategy::AllowedLateness { max_lateness: dur }
+                    }
                     "side" => LateDataStrategy::SideOutput,
                     _ => LateDataStrategy::RecomputeWindows,
                 };
                 let s = WatermarkedStream::new(ws, ls);
                 let wm = s.current_watermark().timestamp;
                 self.s = Some(s);
-                json!({"wm": wm, "dec": "none", "late": false, "hist": false})
+                json!({"wm": wm / self.unit, "dec": "none", "late": false, "hist": false})
             }
             "offer" => {
-                let ts = l["ts"].as_u64().unwrap();
+                let ts = l["ts"].as_u64().unwrap() * self.unit;
+                let unit = self.unit;
                 self.n += 1;
                 let id = format!("e{}", self.n);
                 let s = self.s.as_mut().unwrap();
@@ -83,12 +92,12 @@ impl Model for WM {
                 let st = s.late_stats();
                 let totals_ok = self.offered == s.events().len() + st.dropped + s.side_output().len()
                     && st.total_late == st.dropped + st.allowed + st.side_output;
-                if dec == "inconsistent" || !hist_ok || !totals_ok || r.is_err() || (wm != wm0) != hist {
-                    return json!({"wm": wm, "dec": dec, "late": late, "hist": hist, "detail": {
+                if dec == "inconsistent" || !hist_ok || !totals_ok || r.is_err() || (wm != wm0) != hist || wm % unit != 0 {
+                    return json!({"wm": wm, "unit": unit, "dec": dec, "late": late, "hist": hist, "detail": {
                         "in_events": in_events, "in_side": in_side, "stats_delta": [dl.0, dl.1, dl.2, dl.3],
                         "totals_ok": totals_ok, "hist_ok": hist_ok, "err": r.is_err(), "wm_before": wm0}});
                 }
-                json!({"wm": wm, "dec": dec, "late": late, "hist": hist})
+                json!({"wm": wm / unit, "dec": dec, "late": late, "hist": hist})
             }
             o => panic!("unknown op {}", o),
         }
